@@ -152,6 +152,7 @@ def run(eng: Engine, ck: Check):
                     disc = True
                 if isinstance(rv, ast.Name):
                     it = bound_iter_of(rv.id, d)
+                    it = expand_aliases(race, it, 1) if isinstance(it, ast.Name) else it       # `rest = lst[1:]` ; `for c in rest:`
                     if it is not None and isinstance(it, ast.Subscript) and mentions_name(it, lst) and isinstance(it.slice, ast.Slice) \
                             and const(it.slice.lower) == 1:
                         disc = True
